@@ -220,7 +220,7 @@ def check_case(case, ctx):
 
 
 def reach(counters, tier, info):
-    k = 1 if tier == "quick" else 8
+    k = 0.5 if tier == "quick" else 8
     out = []
     v = counters.get("runs_without_decision", 0)
     out.append({"name": "runs on >= 2 elements that consumed no scripted decision", "observed": v, "required": 0,
